@@ -699,7 +699,7 @@ func (h *H) apply1(line string) (string, bool) {
 
 // expiryProbe (C08, "ceases to exist after expiry ... no temporary file remains") with the real timer on a server of
 // its own: a first session is cancelled or completed, which empties the session cache of the repository; a second one
-// receives a chunk and is abandoned.  Lateness is not judged: the session must be gone - with its temporary file - after 4x or else 40x the grace.
+// receives a chunk and is abandoned.  Lateness is not judged: the session must be gone - with its temporary file - after 4x, 40x or else 150x the grace.
 func (h *H) expiryProbe(grace time.Duration, storeKind, how string) {
 	conf := config.Config{
 		Storage: config.ConfigStorage{StoreType: config.StoreMem, GC: config.ConfigGC{Frequency: -1, GracePeriod: grace}},
@@ -755,7 +755,7 @@ func (h *H) expiryProbe(grace time.Duration, storeKind, how string) {
 	}
 	alive := func() bool { return do("GET", loc2, nil, nil).Code == 204 }
 	gone := false
-	for _, k := range []int{4, 40} {
+	for _, k := range []int{4, 40, 150} {
 		time.Sleep(time.Duration(k) * grace)
 		if !alive() {
 			gone = true
@@ -763,7 +763,7 @@ func (h *H) expiryProbe(grace time.Duration, storeKind, how string) {
 		}
 	}
 	if !gone {
-		h.mon.flag(h, "C08.gone-after.expiry", fmt.Sprintf("real timer (%s store, first session %s): an abandoned session still answers its status query %v after it was last used (grace %v)", storeKind, how, 40*grace, grace))
+		h.mon.flag(h, "C08.gone-after.expiry", fmt.Sprintf("real timer (%s store, first session %s): an abandoned session still answers its status query %v after it was last used (grace %v)", storeKind, how, 150*grace, grace))
 		return
 	}
 	if root != "" {
